@@ -702,10 +702,20 @@ func (f *transformationCallable) Call(argv []reflect.Value) (reflect.Value, erro
 
 	items = arrayify(items)
 
+	// The pattern can select objects that are not part of the
+	// copy, e.g. via $$ or a variable that refers to the input
+	// data. Only objects in the copy may be modified.
+	owned := make(map[uintptr]struct{})
+	collectMaps(obj, owned)
+
 	for i := 0; i < items.Len(); i++ {
 
 		item := jtypes.Resolve(items.Index(i))
 		if !jtypes.IsMap(item) {
+			continue
+		}
+
+		if _, ok := owned[item.Pointer()]; !ok {
 			continue
 		}
 
@@ -721,6 +731,24 @@ func (f *transformationCallable) Call(argv []reflect.Value) (reflect.Value, erro
 	}
 
 	return obj, nil
+}
+
+// collectMaps adds the address of every map in v to maps.
+func collectMaps(v reflect.Value, maps map[uintptr]struct{}) {
+
+	v = jtypes.Resolve(v)
+
+	switch {
+	case jtypes.IsMap(v):
+		maps[v.Pointer()] = struct{}{}
+		for _, k := range v.MapKeys() {
+			collectMaps(v.MapIndex(k), maps)
+		}
+	case jtypes.IsArray(v):
+		for i := 0; i < v.Len(); i++ {
+			collectMaps(v.Index(i), maps)
+		}
+	}
 }
 
 func (f *transformationCallable) validateArgs(argv []reflect.Value) error {
